@@ -104,6 +104,21 @@ func (in *inst) rangeElemHook(s *ast.RangeStmt) {
 	if id, ok := s.Value.(*ast.Ident); ok && id.Name == "_" {
 		return
 	}
+	// `for _, m := range m.Seq`: inside the body the range expression would mean something else
+	shadowed := false
+	ast.Inspect(s.X, func(n ast.Node) bool {
+		if id, ok := n.(*ast.Ident); ok {
+			for _, v := range []ast.Expr{s.Key, s.Value} {
+				if vi, ok := v.(*ast.Ident); ok && vi.Name == id.Name {
+					shadowed = true
+				}
+			}
+		}
+		return !shadowed
+	})
+	if shadowed {
+		return
+	}
 	t := in.info.TypeOf(s.X)
 	if t == nil {
 		return
